@@ -18,6 +18,9 @@ HasFlow(case, lo, hi) ==
      LET d == case.journal[n] IN
      d.k = "trx" /\ lo <= d.z /\ d.z <= hi /\
      \E m \in 1..Len(d.bk) : d.bk[m].q # 0 /\ (IsAL(case.ty, d.bk[m].cr) # IsAL(case.ty, d.bk[m].dr))
+\* transactions annotated with @performance are internal performance effects, not external flows
+HasPerfTrx(case, lo, hi) ==
+  \E n \in 1..Len(case.journal) : case.journal[n].k = "trx" /\ lo <= case.journal[n].z /\ case.journal[n].z <= hi /\ case.journal[n].perf
 PriceChanged(case, lo, hi) ==
   \E n \in 1..Len(case.journal) : case.journal[n].k = "price" /\ lo <= case.journal[n].z /\ case.journal[n].z <= hi
       /\ LatestNorm(case, case.journal[n].z) # LatestNorm(case, lo - 1)
